@@ -375,7 +375,9 @@ def corr_encode(ctx: Ctx):
     coding cookie since F-97), and the escaped literal read back"""
     from ..core import g_N
     rng = ctx.rng
-    pool = ["a", " ", "'", '"', "\\", "\xe9", "\xff", "\u0100", "\u20ac", "\u4e2d", "\U0001f40d", "\x7f", "\x80", "\xa0", "\xad", "\u2028", "\ud800", "\t", "x=1"]
+    pool = ["a", " ", "'", '"', "\\", "\xe9", "\xff", "\u0100", "\u20ac", "\u4e2d", "\U0001f40d", "\x7f", "\x80", "\xa0", "\xad", "\u2028", "\ud800", "\t", "x=1",
+            # several lines: the triple-quoted form (not covered by C12_backslashreplace_roundtrip_single_line: instances only)
+            "\n", " \n", "\n", "'''", '"""']
     cases, kept = [], []
     for _ in range(400 if not ctx.thorough else 5000):
         s = "".join(rng.choice(pool) for _ in range(rng.randint(0, 8)))
